@@ -67,7 +67,7 @@ func (m *Mutex) Lock() {
 		m.real.Lock()
 		return
 	}
-	Park("Mutex.Lock")
+	Park("L:" + callerSite(1))
 	t := current()
 	for {
 		mu.Lock()
@@ -127,7 +127,7 @@ func (m *RWMutex) Lock() {
 		m.real.Lock()
 		return
 	}
-	Park("RWMutex.Lock")
+	Park("W:" + callerSite(1))
 	t := current()
 	for {
 		mu.Lock()
@@ -166,7 +166,7 @@ func (m *RWMutex) RLock() {
 		m.real.RLock()
 		return
 	}
-	Park("RWMutex.RLock")
+	Park("R:" + callerSite(1))
 	t := current()
 	for {
 		mu.Lock()
@@ -268,7 +268,7 @@ func (w *WaitGroup) Wait() {
 		w.real.Wait()
 		return
 	}
-	Park("WaitGroup.Wait")
+	Park("G:" + callerSite(1))
 	t := current()
 	for {
 		mu.Lock()
